@@ -63,6 +63,10 @@ def eval_test(test: ast.AST, env: Dict[str, Any]) -> Optional[bool]:
         rv = _val(r, env)
         if rv is _UNKNOWN:
             return None
+        if isinstance(op, (ast.In, ast.NotIn)) and isinstance(rv, (list, tuple, set, frozenset)):
+            # membership in a named table whose content the scenario supplies
+            res = any(lv is v or lv == v for v in rv)
+            return res if isinstance(op, ast.In) else not res
         if isinstance(op, (ast.Eq, ast.Is)):
             return lv is rv or lv == rv
         if isinstance(op, (ast.NotEq, ast.IsNot)):
@@ -79,6 +83,13 @@ def eval_test(test: ast.AST, env: Dict[str, Any]) -> Optional[bool]:
             if isinstance(op, ast.GtE):
                 return lv >= rv
         return None
+    if isinstance(test, ast.Call) and isinstance(test.func, ast.Name) and \
+            test.func.id == "isinstance" and len(test.args) == 2 and \
+            ast.unparse(test) not in env:
+        v0 = _val(test.args[0], env)
+        ttxt = ast.unparse(test.args[1])
+        if v0 is None and "NoneType" not in ttxt and "object" not in ttxt:
+            return False  # a missing value is an instance of no ordinary class
     v = _val(test, env)
     if v is _UNKNOWN:
         return None
